@@ -892,6 +892,9 @@ var c02PosFilter = map[string]func(string) bool{
 	"server-variable":  func(s string) bool { return !strings.ContainsAny(s, "{}/") && s != "" },
 }
 
+// valid regular expressions with characters that are hostile to Go string literals
+var c02Regexes = []string{`^"a"$`, "^`+$", "^[^`]+$", `^\\d\\\\$`, `^[a-z'"]+$`, "^\\n$", `^\x60$`, `^a/b$`, `^%s$`, "^a`b\"c$", `^\\\\$`, "^\\t\\r$", `^[\]]$`, `^\{\}$`, "^é+$", `^\u0041$`}
+
 // documentation positions: line breaks are handled by the generator (prettyDoc), NUL and BOM are not
 var c02DocPositions = map[string]bool{"description": true, "summary": true, "title": true}
 
@@ -948,13 +951,20 @@ func hostileDoc(rng *lp.Rand, sanitize bool) (out []byte, what string, controlIn
 	for i := 0; i < np; i++ {
 		name := pick("property", fmt.Sprintf("prop%d", i), 55)
 		var s map[string]any
-		switch rng.Intn(7) {
+		switch rng.Intn(9) {
+		case 7:
+			// pattern-keyed map: the key pattern goes into regexMap and into the map's key validation
+			s = map[string]any{"type": "object", "patternProperties": map[string]any{lp.Pick(rng, c02Regexes): map[string]any{"type": "string"}}}
+			used = append(used, "patternProperties")
+		case 8:
+			s = map[string]any{"type": "object", "properties": map[string]any{"k": map[string]any{"type": "string"}}, "patternProperties": map[string]any{lp.Pick(rng, c02Regexes): map[string]any{"type": "integer"}}, "additionalProperties": false}
+			used = append(used, "patternProperties+properties")
 		case 0:
 			s = map[string]any{"type": "string", "enum": []any{pick("enum-value", "one", 60), pick("enum-value", "two", 60), "three"}}
 		case 1:
 			s = map[string]any{"type": "string", "default": pick("default", "dflt", 70)}
 		case 2:
-			s = map[string]any{"type": "string", "pattern": lp.Pick(rng, []string{`^"a"$`, "^`+$", `^\\d\\\\$`, `^[a-z'"]+$`, "^\\n$", `^\x60$`, `^a/b$`, `^%s$`})}
+			s = map[string]any{"type": "string", "pattern": lp.Pick(rng, c02Regexes)}
 			used = append(used, "pattern")
 		case 3:
 			s = map[string]any{"type": "object", "properties": map[string]any{pick("nested-property", "inner", 60): map[string]any{"type": "integer"}}}
